@@ -1,15 +1,13 @@
 package main
 
-import (
-	"go/ast"
-)
-
 func (g *Gen) tables(id string) {
 	g.ruleLemmas(id)
 	g.symbolObligations(id)
 	g.sortObligations(id)
 }
-func (g *Gen) thoroughExtras(id string, obls *[]*Obligation, work string) {}
-func runSelftest(args []string) int { return 2 }
 
-var _ ast.Node
+// thoroughExtras: the thorough tier differs from quick in solver budget (60 s per obligation
+// instead of 10 s) and in cross-checking: every obligation is run on all three solvers and a
+// disagreement (one says sat where another says unsat) fails it. No additional obligations are
+// generated: the contracts are the same unbounded statements in both tiers.
+func (g *Gen) thoroughExtras(id string, obls *[]*Obligation, work string) {}
